@@ -1201,6 +1201,16 @@ def g_chains(F, rng, tier):
             # truncation to nd digits is monotonic (equal values allowed)
             out.append({"kind": "chain", "fmt": F.name, "tag": "C09:carry",
                         "members": [{"int": w, "frac": "", "exp": qq} for (w, qq) in vals]})
+    # every exponent of the (disguised) fast path: a short significand (decided by one floating-point operation) between
+    # two 21..25-digit neighbours that leave the fast path:  w - 10^-20 ("..999")  <  w  <  w + 10^-24
+    for qq in range(-F.fast_exp - 1, F.disg_exp + 2):
+        ws = list(range(1, 10)) + [12, 15, 25, 26] + [rng.randrange(10, 1 << F.p) for _ in range(2 if q else 8)] + [(1 << F.p) - 1, 1 << F.p]
+        for w in (rng.sample(ws, 7) if q else ws):
+            below = str(w - 1) + "9" * 20 if w > 1 else "9" * 20
+            mem = [{"int": below if w > 1 else "", "frac": "" if w > 1 else "9" * 20, "exp": qq - 20 if w > 1 else qq},
+                   {"int": str(w), "frac": "", "exp": qq},
+                   {"int": str(w), "frac": "0" * 23 + "1", "exp": qq}]
+            out.append({"kind": "chain", "fmt": F.name, "tag": "C09:fast-seam", "members": mem})
     # every decade, first to last (and beyond): 1eq < 2eq < ... < 9eq < 1e(q+1); short forms only (what a caller writes)
     for qq in range(F.p10_lo - 3, F.p10_hi + 3):
         mem = [{"int": str(d), "frac": "", "exp": qq} for d in range(1, 10)] + [{"int": "1", "frac": "", "exp": qq + 1}, {"int": "15", "frac": "", "exp": qq}]
@@ -1400,6 +1410,12 @@ def g_bigint(rng, tier):
                 x2[rng.randrange(n)] ^= 1 << rng.randrange(64)
                 if x2[-1]:
                     add("compare", x, x2)
+    # carry ripples: all-ones limbs below a limb that absorbs the carry (or none: a new limb, or overflow at capacity)
+    for k in (1, 2, 3, 10, 60, 61, 62):
+        add("small_add", [M64] * k, [1], tag="small_add:ripple-all")
+        if k < 62:
+            add("small_add", [M64] * k + [5], [1], tag="small_add:ripple-stops")
+            add("small_add", [M64 - 3] + [M64] * (k - 1) + [7], [9], tag="small_add:ripple-stops")
     # hi64 / compare on SPARSE vectors: the two top limbs set and exactly one non-zero limb below them, at every position
     # (the sticky flag must see every limb), and none at all
     for n in list(range(3, 21)) + [30, 31, 32, 33, 61, 62]:
